@@ -30,6 +30,7 @@ META = {
         "an insert_hugr that raises ParentBeforeChild ends the history (the partial state is not judged)",
     ],
     "nshards": {"quick": 16, "thorough": 16},
+    "watchdog_s": {"quick": 1800, "thorough": 21600},
 }
 
 
